@@ -344,15 +344,17 @@ fn core_sizes(thorough: bool, with_print: bool) -> Vec<(&'static str, crate::gen
     if !with_print {
         // print-free alphabets (one size larger: the space is smaller)
         return vec![
-            ("all-np", Alphabet { types: vec![T::Int, T::Pair, T::Fun], with_print: false, with_if: true, with_call: true, with_exit: true }, a + 1),
-            ("int-pair-np", Alphabet { types: vec![T::Int, T::Pair], with_print: false, with_if: false, with_call: false, with_exit: false }, b + 1),
-            ("int-opt-np", Alphabet { types: vec![T::Int, T::Opt], with_print: false, with_if: false, with_call: false, with_exit: false }, b + 2),
+            ("all-np", Alphabet { types: vec![T::Int, T::Pair, T::Fun], with_print: false, with_if: true, with_call: true, with_exit: true, if2: vec![] }, a + 1),
+            ("int-pair-np", Alphabet { types: vec![T::Int, T::Pair], with_print: false, with_if: false, with_call: false, with_exit: false, if2: vec![] }, b + 1),
+            ("int-opt-np", Alphabet { types: vec![T::Int, T::Opt], with_print: false, with_if: false, with_call: false, with_exit: false, if2: vec![] }, b + 2),
+            ("int-cmp-np", Alphabet { types: vec![T::Int], with_print: false, with_if: false, with_call: false, with_exit: true, if2: vec![0, 1, 2, 3, 4, 5] }, a + 1),
         ];
     }
     vec![
-        ("all", Alphabet { types: vec![T::Int, T::Pair, T::Fun], with_print: true, with_if: true, with_call: true, with_exit: true }, a),
-        ("int-pair", Alphabet { types: vec![T::Int, T::Pair], with_print: true, with_if: false, with_call: false, with_exit: false }, b),
-        ("int-opt", Alphabet { types: vec![T::Int, T::Opt], with_print: true, with_if: false, with_call: false, with_exit: false }, b + 1),
+        ("all", Alphabet { types: vec![T::Int, T::Pair, T::Fun], with_print: true, with_if: true, with_call: true, with_exit: true, if2: vec![] }, a),
+        ("int-pair", Alphabet { types: vec![T::Int, T::Pair], with_print: true, with_if: false, with_call: false, with_exit: false, if2: vec![] }, b),
+        ("int-opt", Alphabet { types: vec![T::Int, T::Opt], with_print: true, with_if: false, with_call: false, with_exit: false, if2: vec![] }, b + 1),
+        ("int-cmp", Alphabet { types: vec![T::Int], with_print: true, with_if: false, with_call: false, with_exit: true, if2: vec![0, 1, 2, 3, 4, 5] }, a),
     ]
 }
 
